@@ -19,6 +19,7 @@ pub fn inp_json(i: &Inp) -> serde_json::Value {
         Inp::EE(a, bb) => json!({"P": el_json(a), "Q": el_json(bb)}),
         Inp::EEB(a, bb, g) => json!({"P": el_json(a), "Q": el_json(bb), "flag": g}),
         Inp::F(x) => json!({"x": hexs(&fqb(x))}),
+        Inp::FF(x, y) => json!({"x": hexs(&fqb(x)), "y": hexs(&fqb(y))}),
         Inp::EBits(a, bits) => json!({"P": el_json(a), "nbits": bits.len(), "bits": bits.iter().map(|x| if *x { '1' } else { '0' }).collect::<String>()}),
     }
 }
@@ -57,7 +58,7 @@ pub fn inputs_for(ctx: &Ctx, g: &Gadget, zoo: &[SE], rng: &mut rand_chacha::ChaC
             }
         }
         "F" => {
-            if g.name.contains("decompress") || g.name.contains("lazy encoding") {
+            if g.name.contains("decompress") || g.name.contains("lazy encoding") || g.name.contains("new_witness<Fq>") {
                 for (s, cl) in field_inputs_decode(ctx, rng, budget / 3) {
                     out.push((Inp::F(fq(&s)), cl.to_string()));
                 }
@@ -72,6 +73,26 @@ pub fn inputs_for(ctx: &Ctx, g: &Gadget, zoo: &[SE], rng: &mut rand_chacha::ChaC
                 }
                 for _ in 0..budget / 2 {
                     out.push((Inp::F(fq(&rand_below(rng, &c.f.p))), "random".to_string()));
+                }
+            }
+        }
+        "FF" => {
+            // pairs of encodings: valid/valid (equal, negated, different), valid/invalid, invalid/invalid
+            let singles = field_inputs_decode(ctx, rng, budget / 6);
+            let valid: Vec<&(B, &'static str)> = singles.iter().filter(|(s, _)| c.decode_spec_fe(s).is_ok()).collect();
+            for (k, (s, cl)) in singles.iter().enumerate() {
+                let partner: (B, &str) = match k % 5 {
+                    0 => (s.clone(), "same"),
+                    1 => (c.f.neg(s), "q-s"),
+                    2 | 3 => { let v = valid[(7 * k + 3) % valid.len()]; (v.0.clone(), v.1) }
+                    _ => { let v = &singles[(5 * k + 1) % singles.len()]; (v.0.clone(), v.1) }
+                };
+                out.push((Inp::FF(fq(s), fq(&partner.0)), format!("{cl}|{}", partner.1)));
+                out.push((Inp::FF(fq(&partner.0), fq(s)), format!("{}|{cl}", partner.1)));
+                if let Ok(p) = c.decode_spec_fe(s) {
+                    // the same element through the encoding of its negation's negation etc.
+                    let e2 = c.encode_spec_fe(&c.neg(&p)).unwrap();
+                    out.push((Inp::FF(fq(s), fq(&e2)), format!("{cl}|encoding of -P")));
                 }
             }
         }
@@ -182,6 +203,7 @@ pub fn run(ctx: &Ctx, rec: &mut Rec) {
         let budget = match g.kind {
             "EBits" => ctx.scale(120, 600),
             "F" => ctx.scale(500, 3000),
+            "FF" => ctx.scale(240, 1500),
             _ => ctx.scale(400, 2400),
         };
         for (inp, cl) in inputs_for(ctx, g, &zoo, &mut zrng, budget) {
